@@ -550,6 +550,10 @@ def conc_runs(h, tier, rng, ncalls):
                 # 1 holds SHARED while 0 does everything: 0's COMMIT is refused, then 1 goes through
                 add("c_blk_v%d_k%d" % (v, k), v, k, [0] * 3 + [1] * 5 + [0] * nc, shape="reader-blocks-commit")
                 add("c_late_v%d_k%d" % (v, k), v, k, [0] * (nc - 1) + [1] * 3 + [0] + [1] * nc, shape="second-starts-before-commit")
+                # the second instance reads the version while the first is in the middle of its statements
+                for cut in sorted({nc // 4, nc // 2, (3 * nc) // 4, max(nc - 3, 0)}):
+                    if cut >= 6:
+                        add("c_mid%d_v%d_k%d" % (cut, v, k), v, k, [0] * cut + [1] * 5 + [0] * nc + [1] * nc, shape="second-reads-mid-run")
             for r in range(6 if tier == "quick" else 12):
                 sched = [rng.randrange(2) for _ in range(2 * nc)]
                 add("c_rnd%d_v%d_k%d" % (r, v, k), v, k, sched, shape="random")
